@@ -10,7 +10,7 @@ from typing import Union, List, Optional, Dict
 
 # Local imports
 from ...connect import Connectable
-from ...instance import _get_connref
+from ...instance import _get_connref, InstanceArray
 from ...instantiable import (
     io,
     Instantiable,
@@ -276,6 +276,11 @@ class ResolvePortRefs(ElabPass):
 
         # Copy any relevant attributes of the Port
         sig = self.copy_port(port)
+
+        # Unconnected ports of an Instance Array are unconnected *per element*:
+        # widen the new Signal so that each element gets its own part of it.
+        if isinstance(portref.inst, InstanceArray) and isinstance(sig, Signal):
+            sig.width = port.width * portref.inst.n
 
         # Set the signal name, either from the NoConn or the instance/port names
         # In either case, avoid collisions with everything already in the module namespace
